@@ -229,6 +229,7 @@ def run(ctx):
                     meta.append(('%s/%s/%s/%s@%d' % (fmtname, dest0, wname, src, j), raised))
                     n_run += 1
     cli_traces(ctx, d, traces, meta)
+    cli_multi(ctx, d, traces, meta)
     from .. import system
     system.run(ctx, 'C11')
     # canaries (hand-written observations)
@@ -298,6 +299,58 @@ def cli_traces(ctx, d, traces, meta):
         traces.append({'dest0': 'old', 'events': list(_AUDIT['events']), 'raised': True,
                        'destAfter': 'absent' if after is None else ('old' if after == before else 'new')})
         meta.append(('cli/old/%s' % cmd, raised))
+
+
+def cli_multi(ctx, d, traces, meta):
+    """`p8tool luafmt a.p8 b.p8` / `luamin a.p8.png b.p8.png`: the second cart fails while it is produced
+    (the Lua writer raises a parser error, as it does for unparseable code); the file already at the
+    second cart's output path (from an earlier run) must stay as it is."""
+    from pico8 import tool
+    from pico8.game import file as gfile
+    from pico8.lua import lua, parser
+    game = sample_cart()
+    for cmd, ext, wcls in (('luafmt', '.p8', lua.LuaFormatterWriter), ('luamin', '.p8.png', lua.LuaMinifyTokenWriter), ('writep8', '.p8', lua.LuaEchoWriter)):
+        a = os.path.join(d, 'multi_%s_a%s' % (cmd, ext))
+        b = os.path.join(d, 'multi_%s_b%s' % (cmd, ext))
+        gfile.to_file(game, a)
+        gfile.to_file(game, b)
+        outb = b[:-len(ext)] + '_fmt' + ext
+        try:
+            tool.main(['--quiet', cmd, b])          # an earlier, successful run leaves b_fmt behind
+        except SystemExit:
+            pass
+        if not os.path.exists(outb):
+            continue
+        before = open(outb, 'rb').read()
+        orig = wcls.to_lines
+        calls = [0]
+        per_cart = 2 if ext == '.p8' else 1        # the .p8 writer walks the code twice (sanity parse + write)
+
+        def bad(self, _orig=orig, _calls=calls):
+            _calls[0] += 1
+            if _calls[0] > per_cart:
+                _AUDIT['events'].append({'e': 'fail', 'mode': '', 'src': 'lua-writer', 'k': _calls[0]})
+                raise parser.ParserError('injected: code of the second cart cannot be written', token=None)
+            for c in _orig(self):
+                yield c
+        wcls.to_lines = bad
+        _AUDIT.update(on=True, path=os.path.abspath(outb), events=[])
+        raised = None
+        try:
+            rc = tool.main(['--quiet', cmd, a, b])
+            if rc not in (0, None):
+                raised = 'rc=%s' % rc
+        except BaseException as e:  # noqa
+            raised = '%s: %s' % (type(e).__name__, str(e)[:60])
+        finally:
+            _AUDIT['on'] = False
+            wcls.to_lines = orig
+        if not any(ev['e'] == 'fail' for ev in _AUDIT['events']):
+            continue
+        after = open(outb, 'rb').read() if os.path.exists(outb) else None
+        traces.append({'dest0': 'old', 'events': list(_AUDIT['events']), 'raised': True,
+                       'destAfter': 'absent' if after is None else ('old' if after == before else 'new')})
+        meta.append(('cli/old/%s-two-carts' % cmd, raised))
 
 
 def replay(ctx, path):
